@@ -1,4 +1,5 @@
 import Secp.Proofs.ScalarEnc
+import Secp.Hand.Group
 /-!
 # C07 — scalar encodings are canonical 32-byte big-endian; decoding rejects all else
 
@@ -54,6 +55,10 @@ theorem decodeHex_hex (r s : L4) (hs : sOk s) :
     Hand.Scalar.decodeHex r (toHex (Hand.Scalar.encode s)) = (none, s) :=
   (decodeHex_toHex r (Hand.Scalar.encode s) (by rw [sc_encode s hs]; exact i2osp_isBytes _ _)).trans
     (sc_decode_encode r s hs)
+
+/-- `Order()` is the canonical 32-byte encoding of the group order `n` — the first value `Decode` rejects as too big -/
+theorem order_bytes : Hand.Group.order = i2osp N 32 ∧ os2ip Hand.Group.order = N := by
+  constructor <;> decide +kernel
 
 example : sOk Hand.Scalar.minusOne := ⟨by decide, by decide⟩
 
